@@ -1,17 +1,34 @@
 """C12 Reversible MLE: no exact-float assertions, well-formed and reachable
-convergence warning, py <-> pyx sibling agreement, reference Prinz equations."""
+convergence warning, py <-> pyx sibling agreement, reference Prinz equations.
+
+The rules are role based.  One implementation is described by `Roles`:
+the count matrix is the first parameter, the iteration loop is the outermost
+`for` that contains the update loops, X / X_rs are the arrays that are stored
+into with a 2-D / 1-D index inside it, C_rs is the 1-D array that is only
+read, the diagonal loop is the loop around the store `X[p, p]`, the pair loops
+are the two loops around the stores `X[p, q]`.  The bodies of the two update
+loops are executed symbolically (`_Exec`): scalars and array cells map to
+sympy expressions, `if` becomes a decision tree, so named temporaries,
+statement order, augmented assignment, chained assignment, inverted branches
+and mirrored comparisons all disappear.  The final value of every stored cell
+is compared with the same execution of the reference Prinz update (built from
+REFERENCE) and with the sibling implementation.  Expressions are compared as
+PARTIAL functions: equal after ring normalisation, or equal after cross
+multiplication AND dividing by the same quantity (an algebraically equal
+value that divides by something else has other singularities)."""
 import ast
-import copy
+import itertools
+import random
+import re
 
 from .. import symx
 from ..core import (AnalysisIncomplete, call_name, const_value, kwarg,
-                    names_loaded, params, target_names, u, walk_expr,
-                    walk_local)
-from ..patterns import (Cmp, assigns_to, calls_in, check_no_arg_mutation,
-                        check_warn_calls, conjuncts, finfo, returns_of,
-                        subscript_stores)
+                    params, u, walk_local)
+from ..patterns import (Cmp, calls_in, check_no_arg_mutation,
+                        check_warn_calls, conjuncts, finfo, returns_of)
 from .msm_common import BU, LM
-from ..match import C, CS
+from ..match import CS, _closed_over
+from ..match import classify as _classify
 
 EXPLANATION = (
     'Static decision of the structural necessary conditions of the reversible '
@@ -20,16 +37,18 @@ EXPLANATION = (
     'non-convergence warning is well formed (message first, category second) '
     'and its condition is satisfiable after loop exhaustion (n_iter == '
     'max_iter - 1 under Python range semantics); (D3) the Python and the '
-    'Cython implementation agree statement by statement after '
-    'canonicalisation (np.sqrt/sqrt, np.log/log10, len(C)/n_states, b**2/b*b), '
-    'and the diagonal update, the coefficients a, b, c, the root v and both '
-    'row-sum updates equal the reference Prinz equations after sympy '
-    'expansion; guards of the log terms test the same quantity whose log is '
-    'taken; (D4) sparse input is densified to an ndarray and re-wrapped, the '
-    'loop is bounded by range(max_iter), the work matrix is a float copy; '
-    '(D5) the returned T and pi are X/rowsum(X) and rowsum/total. Optimality '
-    'against every reversible competitor and the `assert c <= 0` rounding '
-    'question are not decided.')
+    'Cython implementation agree role by role after symbolic execution of the '
+    'two update loops (np.sqrt/sqrt, np.log/log10, len(C)/n_states, b**2/b*b, '
+    'named temporaries, statement order and branch polarity are immaterial), '
+    'and the diagonal update, the coefficients a, b, c, the root v, both '
+    'row-sum updates and the symmetric store equal the reference Prinz '
+    'equations as partial functions (same value and same divisor); every '
+    'pair is updated in every sweep; guards of the log terms test the same '
+    'quantity whose log is taken; (D4) sparse input is densified to an ndarray '
+    'and re-wrapped, the loop is bounded by range(max_iter), the work matrix '
+    'is a float copy; (D5) the returned T and pi are X/rowsum(X) and '
+    'rowsum/total. Optimality against every reversible competitor and the '
+    '`assert c <= 0` rounding question are not decided.')
 
 REFERENCE = {
     # Prinz et al. 2011, eqs. for the reversible MLE (as in msmbuilder)
@@ -42,207 +61,907 @@ REFERENCE = {
     'rs_j': 'X_rs[j] + (v - X[j,i])',
 }
 
+# the reference sweep over the canonical vocabulary X, X_rs, C, C_rs, i, j
+REF_DIAG = '''
+old = X[i, i]
+if 0 < C_rs[i] - C[i, i]:
+    X[i, i] = %(diag)s
+X_rs[i] = X_rs[i] + (X[i, i] - old)
+''' % REFERENCE
+REF_PAIR = '''
+a = %(a)s
+b = %(b)s
+c = %(c)s
+if a == 0:
+    v = X[j, i]
+else:
+    v = %(v)s
+X_rs[i] = %(rs_i)s
+X_rs[j] = %(rs_j)s
+X[i, j] = v
+X[j, i] = v
+''' % REFERENCE
+# which reference equation a stored cell / scalar stands for (messages only)
+REF_OF = {'X[i,i]': 'diag', 'X[i,j]': 'v', 'X[j,i]': 'v', 'X_rs[i]': 'rs_i', 'X_rs[j]': 'rs_j'}
 
-class Canon(ast.NodeTransformer):
-    """Canonicalise accepted spelling differences between the siblings."""
 
-    def __init__(self, nstates_text):
-        self.nstates_text = nstates_text
+class _Neg(ast.NodeTransformer):
+    """The Cython front end yields Constant(-1) where CPython's parser yields
+    UnaryOp(USub, Constant(1)); use the latter everywhere."""
 
-    def visit_Call(self, node):
-        self.generic_visit(node)
-        cn = call_name(node) or ''
-        if cn in ('np.sqrt', 'sqrt', 'math.sqrt'):
-            node.func = ast.Name(id='sqrt', ctx=ast.Load())
-        elif cn in ('np.log', 'log10', 'np.log10', 'log', 'math.log'):
-            node.func = ast.Name(id='LOG', ctx=ast.Load())
-        if u(node) == self.nstates_text:
-            return ast.Name(id='n_states', ctx=ast.Load())
+    def visit_Constant(self, node):
+        if isinstance(node.value, (int, float)) and not isinstance(node.value, bool) and node.value < 0:
+            return ast.copy_location(ast.UnaryOp(op=ast.USub(), operand=ast.Constant(value=-node.value)), node)
         return node
 
-    def visit_BinOp(self, node):
-        self.generic_visit(node)
-        if isinstance(node.op, ast.Pow) and const_value(node.right) == 2:
-            return ast.BinOp(left=node.left, op=ast.Mult(), right=copy.deepcopy(node.left))
-        return node
 
-    def visit_Name(self, node):
-        if node.id == self.nstates_text:
-            return ast.Name(id='n_states', ctx=node.ctx)
-        return node
+def classify(node, patterns, **kw):
+    import copy
+    return _classify(_Neg().visit(copy.deepcopy(node)), patterns, **kw)
 
 
-def main_loop(fn):
-    loops = [l for l in fn.body if isinstance(l, ast.For)]
-    for l in loops:
-        if isinstance(l.iter, ast.Call) and call_name(l.iter) == 'range' and u(l.iter.args[0]) == 'max_iter':
-            return l
-    return None
-
-
-def canon_body(loop, nstates_text):
+def _inplace_sites(fi, name):
+    """Statements that change the object bound to `name` in place (a plain
+    rebinding `name = name.copy()...` is not one)."""
+    from ..normal import MUTATING_METHODS
     out = []
-    for s in loop.body:
-        s2 = Canon(nstates_text).visit(copy.deepcopy(s))
-        ast.fix_missing_locations(s2)
-        out.append(s2)
-    return out
-
-
-def flat_stmts(stmts):
-    out = []
-    for s in stmts:
-        for x in ast.walk(s):
-            if isinstance(x, ast.stmt):
-                out.append(x)
-    return out
-
-
-def d3_siblings(ck):
-    rule = 'C12.D3.siblings'
-    mp, mx = ck.repo.mod(BU), ck.repo.mod(LM)
-    fp, fx = mp.func('_prinz_mle_py'), mx.func('_mle_prinz_dense')
-    ck.analysed(mp, fp)
-    ck.analysed(mx, fx)
-    lp, lx = main_loop(fp), main_loop(fx)
-    if lp is None or lx is None:
-        ck.missing(rule, 'main iteration loop `for n_iter in range(max_iter)` in both implementations')
-        return None, None
-    ck.ok('C12.D4.bounded', mp, lp, u(lp.iter), 'python loop bounded by range(max_iter)')
-    ck.ok('C12.D4.bounded', mx, lx, u(lx.iter), 'cython loop bounded by range(max_iter)')
-    bp = flat_stmts(canon_body(lp, 'len(C)'))
-    bx = flat_stmts(canon_body(lx, 'n_states'))
-    # cython-only declarations are not statements of the loop; compare dumps
-    n = max(len(bp), len(bx))
-    agree = 0
-    for i in range(n):
-        a = bp[i] if i < len(bp) else None
-        b = bx[i] if i < len(bx) else None
-        ta = _sig(a)
-        tb = _sig(b)
-        if ta == tb:
-            agree += 1
-            ck.ok(rule, mp, _orig(lp, i), ta[:120], 'same statement in builders.py and libmsm.pyx')
-        else:
-            node = _orig(lp, i) or lp
-            ck.bad(rule, mp, node, '_prinz_mle_py <-> _mle_prinz_dense',
-                   'py: %s  |  pyx: %s' % (ta[:110], tb[:110]),
-                   'the pure-Python and the compiled estimator differ at statement %d of the iteration '
-                   'body (after canonicalising sqrt/log/len spellings): the two implementations no '
-                   'longer compute the same update / take the same branch' % i)
-            break
-    if agree == n:
-        ck.floor(rule, agree, 20, 'agreeing statements')
-    return lp, lx
-
-
-def _sig(s):
-    if s is None:
-        return '<missing>'
-    if isinstance(s, (ast.For, ast.While)):
-        return 'for %s in %s' % (u(s.target), u(s.iter)) if isinstance(s, ast.For) else 'while %s' % u(s.test)
-    if isinstance(s, ast.If):
-        return 'if %s [body %d, else %d]' % (u(s.test), len(s.body), len(s.orelse))
-    return u(s)
-
-
-def _orig(loop, i):
-    fl = flat_stmts(loop.body)
-    return fl[i] if i < len(fl) else None
-
-
-def d3_reference(ck, mod, fn, loop, impl, nst):
-    rule = 'C12.D3.reference'
-    body = canon_body(loop, nst)
-    stmts = flat_stmts(body)
-    orig = flat_stmts(loop.body)
-    found = {}
-    for s, o in zip(stmts, orig):
-        if isinstance(s, ast.Assign):
-            t = u(s.targets[0])
-            if t == 'X[i, i]':
-                found.setdefault('diag', (s, o))
-            elif t in ('a', 'b', 'c'):
-                found.setdefault(t, (s, o))
-            elif t == 'v' and 'sqrt' in u(s.value):
-                found.setdefault('v', (s, o))
-            elif t == 'X_rs[i]' and 'v' in names_loaded(s.value):
-                found.setdefault('rs_i', (s, o))
-            elif t == 'X_rs[j]' and 'v' in names_loaded(s.value):
-                found.setdefault('rs_j', (s, o))
-    # single-assignment scalar temporaries of the loop body (e.g. denom) are
-    # substituted; the reference symbols a, b, c, v stay symbolic
-    counts = {}
-    for s in stmts:
-        if isinstance(s, ast.Assign) and isinstance(s.targets[0], ast.Name):
-            counts[s.targets[0].id] = counts.get(s.targets[0].id, 0) + 1
-    env = {}
-    for s in stmts:
-        if isinstance(s, ast.Assign) and isinstance(s.targets[0], ast.Name):
-            nm = s.targets[0].id
-            if counts[nm] == 1 and nm not in ('a', 'b', 'c', 'v', 'logl', 'oldlogl', 'tmp'):
-                try:
-                    env[nm] = symx.lift(s.value, env=dict(env))
-                except AnalysisIncomplete:
-                    pass
-    for key, ref in REFERENCE.items():
-        if key not in found:
-            ck.bad(rule, mod, loop, fn.name, key, '%s: the assignment defining `%s` was not found in the iteration body' % (impl, key))
+    for s in fi._mutated_in_place(name):
+        if isinstance(s, ast.Assign) and all(isinstance(t, ast.Name) for t in s.targets) and not any(
+                isinstance(c, ast.Call) and isinstance(c.func, ast.Attribute) and c.func.attr in MUTATING_METHODS
+                for c in ast.walk(s.value)):
             continue
-        s, o = found[key]
+        out.append(s)
+    return out
+
+
+# ---------------------------------------------------------------------------
+# decision trees over sympy leaves
+
+class _Ite:
+    __slots__ = ('c', 'a', 'b')
+
+    def __init__(self, c, a, b):
+        self.c, self.a, self.b = c, a, b
+
+
+def _sp():
+    return symx.sympy()
+
+
+def _leq(x, y):
+    if isinstance(x, bool) or isinstance(y, bool):
+        return isinstance(x, bool) and isinstance(y, bool) and x is y
+    return x == y or _sp().expand(x - y) == 0
+
+
+def _teq(x, y):
+    if isinstance(x, _Ite) or isinstance(y, _Ite):
+        return isinstance(x, _Ite) and isinstance(y, _Ite) and x.c == y.c and _teq(x.a, y.a) and _teq(x.b, y.b)
+    return _leq(x, y)
+
+
+def _mk(c, a, b):
+    return a if _teq(a, b) else _Ite(c, a, b)
+
+
+def _restrict(t, c, pol):
+    if isinstance(t, _Ite):
+        if t.c == c:
+            return _restrict(t.a if pol else t.b, c, pol)
+        return _mk(t.c, _restrict(t.a, c, pol), _restrict(t.b, c, pol))
+    return t
+
+
+def _ap(f, *ts):
+    """Apply f leaf-wise (f may itself return a tree)."""
+    for t in ts:
+        if isinstance(t, _Ite):
+            hi = [_restrict(x, t.c, True) for x in ts]
+            lo = [_restrict(x, t.c, False) for x in ts]
+            return _mk(t.c, _ap(f, *hi), _ap(f, *lo))
+    return f(*ts)
+
+
+def _conds(t, out=None):
+    out = set() if out is None else out
+    if isinstance(t, _Ite):
+        out.add(t.c)
+        _conds(t.a, out)
+        _conds(t.b, out)
+    return out
+
+
+def _leaves(t):
+    if isinstance(t, _Ite):
+        return _leaves(t.a) + _leaves(t.b)
+    return [t]
+
+
+def _show(t, n=160):
+    if isinstance(t, _Ite):
+        s = '(%s if %s(%s) else %s)' % (_show(t.a, n), t.c[0], t.c[1], _show(t.b, n))
+    else:
+        s = str(t)
+    return s[:n]
+
+
+_COND_SYMS = {}
+_ALLOWED = re.compile(r"^(?:(?:C|X)\[(?:i|j),(?:i|j)\]|(?:C_rs|X_rs)\[(?:i|j)\]|logl)'?$")
+
+
+def _closed(t):
+    """The value is a function of the located operands only (cells of C, X,
+    C_rs, X_rs at the loop indices, the accumulator)."""
+    for leaf in _leaves(t):
+        if isinstance(leaf, bool):
+            continue
+        for s in leaf.free_symbols:
+            if not _ALLOWED.match(s.name):
+                return False
+    for c in _conds(t):
+        if c[0] == 'B':
+            return False
+        for nm in _COND_SYMS.get(c, ('?',)):
+            if not _ALLOWED.match(nm):
+                return False
+    return True
+
+
+def _numeric_differs(g, w):
+    """True: the two expressions take different values at a random point;
+    False: equal at every sampled point; None: cannot evaluate."""
+    sp = _sp()
+    LOGf = sp.Function('LOG')
+    g, w = g.replace(LOGf, sp.log), w.replace(LOGf, sp.log)
+    syms = sorted(g.free_symbols | w.free_symbols, key=lambda s: s.name)
+    rnd = random.Random(12)
+    seen = False
+    for _ in range(4):
+        sub = {s: sp.Rational(rnd.randint(11, 97), rnd.randint(3, 9)) for s in syms}
         try:
-            got = symx.lift(s.value, env=env)
-            want = symx.parse(ref)
-            ok = symx.equal(got, want)
-        except AnalysisIncomplete as e:
-            ck.bad(rule, mod, o, fn.name, u(o), '%s: cannot lift `%s`: %s' % (impl, key, e))
+            a = complex(sp.N(g.subs(sub), 30))
+            b = complex(sp.N(w.subs(sub), 30))
+        except Exception:
             continue
-        ck.check(ok, rule, mod, o, fn.name, '%s: %s' % (impl, u(o)),
-                 '%s equals the reference Prinz expression after expansion' % key,
-                 '%s: `%s` differs from the reference Prinz equation  %s = %s' % (impl, u(o), key, ref))
-    # symmetric store and order: row sums updated BEFORE X[i,j], X[j,i] are overwritten
-    sym = [(s, o) for s, o in zip(stmts, orig) if isinstance(s, ast.Assign) and u(s.targets[0]) in ('X[i, j]', 'X[j, i]')
-           and u(s.value) == 'v']
-    ck.check(len(sym) == 2, rule + '.symmetric', mod, sym[0][1] if sym else loop, fn.name,
-             '; '.join(u(o) for s, o in sym), 'X[i,j] and X[j,i] both take the new value (X stays symmetric)',
-             '%s: both X[i, j] and X[j, i] must be set to v' % impl)
-    if len(sym) == 2 and 'rs_i' in found and 'rs_j' in found:
-        idx = {id(o): k for k, o in enumerate(orig)}
-        ok = max(idx[id(found['rs_i'][1])], idx[id(found['rs_j'][1])]) < min(idx[id(sym[0][1])], idx[id(sym[1][1])])
-        ck.check(ok, rule + '.order', mod, found['rs_i'][1], fn.name, 'row-sum updates before the symmetric store',
-                 'row sums are updated with the OLD X[i,j] before it is overwritten',
-                 '%s: the row-sum updates use X[i, j]; they must precede the store X[i, j] = v' % impl)
-    # log guards test the quantity whose log is taken
-    for s, o in zip(stmts, orig):
-        if isinstance(s, ast.If) and any('LOG(' in u(x) for x in s.body):
-            logs = [c for x in s.body for c in ast.walk(x) if isinstance(c, ast.Call) and u(c.func) == 'LOG']
-            cs = conjuncts(s.test, True)
-            ok = cs is not None and len(cs) == 1 and isinstance(cs[0], Cmp)
-            if ok:
-                less = cs[0].as_less()
-                ok = less is not None and const_value(less[0]) == 0 and less[1]
-                guarded = u(less[2]) if ok else '?'
-                args = set()
-                for c in logs:
-                    a = c.args[0]
-                    args.add(u(a.left) if isinstance(a, ast.BinOp) and isinstance(a.op, ast.Div) else u(a))
-                ok = ok and guarded in args and all(x in (guarded, guarded.replace('[i, j]', '[j, i]')) for x in args)
-            ck.check(ok, 'C12.D3.log-guard', mod, o, fn.name, 'if %s: ... %s' % (u(s.test), '; '.join(u(c) for c in logs)[:80]),
-                     'the log term is added only when its argument is positive',
-                     '%s: the guard `%s` must test the very quantity whose logarithm is taken (> 0); otherwise '
-                     '0 * log(0) = NaN enters the log-likelihood and the convergence test stops the iteration '
-                     'after one sweep' % (impl, u(s.test)))
+        if a != a or b != b:
+            continue
+        seen = True
+        if abs(a - b) > 1e-9 * (1 + abs(a) + abs(b)):
+            return True
+    return False if seen else None
 
+
+def same_partial(g, w):
+    """Compare two leaf expressions as partial real functions.
+    -> ('match'|'near'|'far', reason)"""
+    sp = _sp()
+    if isinstance(g, bool) or isinstance(w, bool):
+        return ('match', '') if _leq(g, w) else ('near', 'different truth value')
+    if sp.expand(g - w) == 0:
+        return 'match', ''
+    try:
+        ng, dg = sp.fraction(sp.together(g))
+        nw, dw = sp.fraction(sp.together(w))
+        if sp.expand(ng * dw - nw * dg) == 0:
+            r = sp.cancel(sp.expand(dg) / sp.expand(dw))
+            if not r.free_symbols:
+                return 'match', ''
+            return 'near', ('algebraically the same value, but one side divides by `%s` and the other by `%s`: '
+                            'the quotient is undefined (0/0, catastrophic cancellation) at other points' % (str(dg)[:120], str(dw)[:60]))
+    except Exception:
+        pass
+    d = _numeric_differs(g, w)
+    if d is True:
+        return 'near', 'different value'
+    return 'far', 'equality could not be established symbolically'
+
+
+def cmp_tree(got, want):
+    """Compare two decision trees as functions of their conditions."""
+    cs = sorted(_conds(got) | _conds(want))
+    if len(cs) > 6:
+        return 'far', 'too many case distinctions'
+    worst, why = 'match', ''
+    for bits in itertools.product((True, False), repeat=len(cs)):
+        g, w = got, want
+        for c, pol in zip(cs, bits):
+            g, w = _restrict(g, c, pol), _restrict(w, c, pol)
+        v, r = same_partial(g, w)
+        if v == 'match':
+            continue
+        case = ' and '.join('%s%s(%s)' % ('' if pol else 'not ', c[0], c[1][:60]) for c, pol in zip(cs, bits))
+        r = (r + (' [case %s]' % case if case else ''))
+        if v == 'near':
+            return ('near', r) if _closed(got) else ('far', r + ' (operands outside the located roles)')
+        worst, why = 'far', r
+    return worst, why
+
+
+# ---------------------------------------------------------------------------
+# symbolic execution of a loop body
+
+class _Escape(Exception):
+    pass
+
+
+_LOGGING = ('logger.', 'logging.', 'log.')
+
+
+class _Exec:
+    """Straight-line + if symbolic execution.  `alias` maps the names of the
+    implementation to the canonical vocabulary (X, X_rs, C, C_rs, i, j, logl)."""
+
+    def __init__(self, alias, acc='logl'):
+        self.alias = alias
+        self.acc = acc
+        self.env = {}
+        self.where = {}
+        self.stored = []
+        self.asserts = []
+        self.phase1 = None          # cells after the update, before the likelihood term
+        self.scalars1 = None
+
+    # -- expressions
+    def name(self, n):
+        return self.alias.get(n, n)
+
+    def sym(self, text):
+        return _sp().Symbol(text, real=True)
+
+    @staticmethod
+    def initial(k):
+        """Symbol of the value a cell holds when the body starts.  X is
+        symmetric then (it starts as C + C.T - C12.D5.result.init - and every
+        pair update stores the same value into X[i,j] and X[j,i] -
+        C12.D3.reference.symmetric), so X[j,i] and X[i,j] denote one value."""
+        m = re.match(r'^X\[([^,\]]+),([^,\]]+)\]$', k)
+        if m and m.group(2) < m.group(1):
+            return 'X[%s,%s]' % (m.group(2), m.group(1))
+        return k
+
+    def cell(self, n):
+        if not isinstance(n.value, ast.Name):
+            raise AnalysisIncomplete('subscript of a non-name: %s' % u(n))
+        idx = n.slice.elts if isinstance(n.slice, ast.Tuple) else [n.slice]
+        keys = []
+        for ix in idx:
+            v = self.ev(ix)
+            if isinstance(v, (_Ite, bool)):
+                raise AnalysisIncomplete('data-dependent index: %s' % u(n))
+            keys.append(str(v).replace(' ', ''))
+        return '%s[%s]' % (self.name(n.value.id), ','.join(keys))
+
+    def ev(self, n):
+        sp = _sp()
+        if isinstance(n, ast.Constant):
+            if isinstance(n.value, bool):
+                return n.value
+            if isinstance(n.value, int):
+                return sp.Integer(n.value)
+            if isinstance(n.value, float):
+                return sp.Rational(repr(n.value))
+        if isinstance(n, ast.Name):
+            k = self.name(n.id)
+            return self.env[k] if k in self.env else self.sym(k)
+        if isinstance(n, ast.Subscript):
+            k = self.cell(n)
+            return self.env[k] if k in self.env else self.sym(self.initial(k))
+        if isinstance(n, ast.UnaryOp):
+            if isinstance(n.op, ast.Not):
+                return self.cond(n)
+            v = self.ev(n.operand)
+            if isinstance(n.op, ast.USub):
+                return _ap(lambda x: -x, v)
+            if isinstance(n.op, ast.UAdd):
+                return v
+        if isinstance(n, ast.BinOp):
+            ops = {ast.Add: lambda x, y: x + y, ast.Sub: lambda x, y: x - y, ast.Mult: lambda x, y: x * y,
+                   ast.Div: lambda x, y: x / y, ast.Pow: lambda x, y: x ** y}
+            f = ops.get(type(n.op))
+            if f is not None:
+                return _ap(f, self.ev(n.left), self.ev(n.right))
+        if isinstance(n, ast.IfExp):
+            return self.select(self.cond(n.test), self.ev(n.body), self.ev(n.orelse))
+        if isinstance(n, (ast.Compare, ast.BoolOp)):
+            return self.cond(n)
+        if isinstance(n, ast.Call) and len(n.args) == 1 and not n.keywords:
+            cn = call_name(n) or ''
+            f = symx.FUNCS.get(cn)
+            if f == 'sqrt':
+                return _ap(sp.sqrt, self.ev(n.args[0]))
+            if f == 'Abs':
+                return _ap(sp.Abs, self.ev(n.args[0]))
+            if f == 'LOG':
+                return _ap(sp.Function('LOG'), self.ev(n.args[0]))
+            if cn in ('float', 'np.float64', 'np.double'):
+                return self.ev(n.args[0])
+        raise AnalysisIncomplete('expression outside the lifted vocabulary: %s' % u(n)[:100])
+
+    def atom(self, l, op, r):
+        sp = _sp()
+
+        def mk(kind, e, pos=True):
+            e = sp.expand(e)
+            if not e.free_symbols:
+                val = {'P': e > 0, 'NN': e >= 0, 'Z': e == 0}[kind]
+                return bool(val) is pos
+            if kind == 'Z':
+                s1, s2 = str(e), str(sp.expand(-e))
+                txt = min(s1, s2)
+            else:
+                txt = str(e)
+            _COND_SYMS[(kind, txt)] = frozenset(x.name for x in e.free_symbols)
+            return _Ite((kind, txt), pos, not pos)
+        if op is ast.Lt:
+            return mk('P', r - l)
+        if op is ast.Gt:
+            return mk('P', l - r)
+        if op is ast.LtE:
+            return mk('NN', r - l)
+        if op is ast.GtE:
+            return mk('NN', l - r)
+        if op is ast.Eq:
+            return mk('Z', l - r)
+        if op is ast.NotEq:
+            return mk('Z', l - r, False)
+        raise AnalysisIncomplete('comparison operator not modelled')
+
+    def cond(self, t):
+        if isinstance(t, ast.UnaryOp) and isinstance(t.op, ast.Not):
+            return _ap(lambda x: not x, self.cond(t.operand))
+        if isinstance(t, ast.BoolOp):
+            f = (lambda x, y: x and y) if isinstance(t.op, ast.And) else (lambda x, y: x or y)
+            out = self.cond(t.values[0])
+            for v in t.values[1:]:
+                out = _ap(f, out, self.cond(v))
+            return out
+        if isinstance(t, ast.Compare):
+            out = True
+            left = self.ev(t.left)
+            for op, right in zip(t.ops, t.comparators):
+                rv = self.ev(right)
+                a = _ap(lambda x, y, _op=type(op): self.atom(x, _op, y), left, rv)
+                out = _ap(lambda x, y: x and y, out, a)
+                left = rv
+            return out
+        v = self.ev(t)
+        return _ap(lambda x: x if isinstance(x, bool) else _Ite(('B', str(x)), True, False), v)
+
+    def select(self, c, x, y):
+        return _ap(lambda k, p, q: p if k else q, c, x, y)
+
+    # -- statements
+    def store(self, t, val, stmt):
+        if isinstance(t, ast.Name):
+            k = self.name(t.id)
+        elif isinstance(t, ast.Subscript):
+            k = self.cell(t)
+            if k not in self.stored:
+                self.stored.append(k)
+        else:
+            raise AnalysisIncomplete('assignment target not modelled: %s' % u(t))
+        self.env[k] = val
+        self.where[k] = stmt
+
+    def run(self, stmts):
+        for s in stmts:
+            self.step(s)
+
+    def step(self, s):
+        if isinstance(s, ast.Pass) or (isinstance(s, ast.Expr) and isinstance(s.value, ast.Constant)):
+            return
+        if isinstance(s, ast.Expr) and isinstance(s.value, ast.Call) and (
+                (call_name(s.value) or '').startswith(_LOGGING) or call_name(s.value) == 'print'):
+            return
+        if isinstance(s, ast.AnnAssign) and s.value is None:
+            return
+        if isinstance(s, ast.Assign) and len(s.targets) == 1 and isinstance(s.targets[0], ast.Tuple) and isinstance(s.value, ast.Tuple) \
+                and len(s.targets[0].elts) == len(s.value.elts):
+            vals = [self.ev(e) for e in s.value.elts]
+            for t, val in zip(s.targets[0].elts, vals):
+                self.store(t, val, s)
+            return
+        if isinstance(s, (ast.Assign, ast.AnnAssign)):
+            val = self.ev(s.value)
+            for t in (s.targets if isinstance(s, ast.Assign) else [s.target]):
+                self.store(t, val, s)
+            return
+        if isinstance(s, ast.AugAssign):
+            b = ast.BinOp(left=_as_load(s.target), op=s.op, right=s.value)
+            self.store(s.target, self.ev(b), s)
+            return
+        if isinstance(s, ast.Assert):
+            self.asserts.append(self.cond(s.test))
+            return
+        if isinstance(s, ast.If):
+            c = self.cond(s.test)
+            if isinstance(c, bool):
+                self.run(s.body if c else s.orelse)
+                return
+            base = (dict(self.env), dict(self.where), list(self.stored), list(self.asserts))
+            self.run(s.body)
+            t_env, t_where, t_stored, t_as = self.env, self.where, self.stored, self.asserts
+            self.env, self.where, self.stored, self.asserts = dict(base[0]), dict(base[1]), list(base[2]), list(base[3])
+            self.run(s.orelse)
+            self.asserts = list(base[3])       # assertions under a branch are not recorded
+            for k in set(t_env) | set(self.env):
+                a = t_env[k] if k in t_env else self.sym(self.initial(k))
+                b = self.env[k] if k in self.env else self.sym(self.initial(k))
+                self.env[k] = self.select(c, a, b)
+            e_where, self.where = self.where, dict(base[1])
+            for k in set(t_where) | set(e_where):
+                ta, eb = t_where.get(k), e_where.get(k)
+                ta = ta if ta is not base[1].get(k) else None
+                eb = eb if eb is not base[1].get(k) else None
+                if ta is not None and eb is not None:
+                    # assigned in both branches: name the larger expression
+                    self.where[k] = ta if len(ast.dump(ta)) >= len(ast.dump(eb)) else eb
+                elif ta is not None or eb is not None:
+                    self.where[k] = ta if ta is not None else eb
+            for k in t_stored:
+                if k not in self.stored:
+                    self.stored.append(k)
+            return
+        if isinstance(s, (ast.Continue, ast.Break, ast.Return, ast.Raise)):
+            raise _Escape(u(s))
+        raise AnalysisIncomplete('statement not modelled: %s' % u(s)[:80])
+
+    # -- the two phases of an update body
+    def writes_acc(self, s):
+        return any(isinstance(x, ast.Name) and isinstance(x.ctx, ast.Store) and self.name(x.id) == self.acc for x in ast.walk(s))
+
+    @staticmethod
+    def stores_cell(s):
+        return any(isinstance(x, ast.Subscript) and isinstance(x.ctx, (ast.Store, ast.Del)) for x in ast.walk(s))
+
+    def run_body(self, stmts):
+        for s in stmts:
+            if self.writes_acc(s):
+                if self.stores_cell(s):
+                    raise AnalysisIncomplete('statement updates both the accumulator and an array cell')
+                if self.phase1 is None:
+                    self.havoc()
+            elif self.phase1 is not None and self.stores_cell(s):
+                raise AnalysisIncomplete('array store after the likelihood term')
+            self.step(s)
+        if self.phase1 is None:
+            self.havoc()
+
+    def havoc(self):
+        """End of the update phase: remember the new cell values and replace
+        them by fresh symbols `cell'` (cells holding the same value share one
+        symbol), so that the likelihood term is a function of the NEW state."""
+        self.phase1 = {k: self.env[k] for k in self.stored}
+        self.scalars1 = {k: v for k, v in self.env.items() if k not in self.phase1}
+        fresh = []
+        for k in sorted(self.stored):
+            for k2, old, s2 in fresh:
+                if _teq(old, self.phase1[k]):
+                    self.env[k] = s2
+                    break
+            else:
+                s2 = self.sym(k + "'")
+                fresh.append((k, self.phase1[k], s2))
+                self.env[k] = s2
+        for k, v in list(self.scalars1.items()):
+            for k2, old, s2 in fresh:
+                if _teq(old, v):
+                    self.env[k] = s2
+                    break
+
+
+def _as_load(t):
+    import copy
+    t2 = copy.deepcopy(t)
+    for x in ast.walk(t2):
+        if hasattr(x, 'ctx'):
+            x.ctx = ast.Load()
+    return t2
+
+
+def _run_reference(src):
+    ex = _Exec({})
+    ex.run_body(ast.parse(src).body)
+    return ex
+
+
+# ---------------------------------------------------------------------------
+# roles
+
+class Roles:
+    pass
+
+
+def _loops_between(mod, node, stop):
+    """Enclosing loops of node, innermost first, up to (excluding) stop."""
+    out = []
+    n = mod.parent.get(node)
+    while n is not None and n is not stop:
+        if isinstance(n, (ast.For, ast.While)):
+            out.append(n)
+        n = mod.parent.get(n)
+    return out if n is stop else None
+
+
+def _inside(mod, node, anc):
+    n = node
+    while n is not None:
+        if n is anc:
+            return True
+        n = mod.parent.get(n)
+    return False
+
+
+def _subscripts(root):
+    """(Subscript, is_store) of every name-based subscript below root."""
+    for x in ast.walk(root):
+        if isinstance(x, ast.Subscript) and isinstance(x.value, ast.Name):
+            yield x, isinstance(x.ctx, (ast.Store, ast.Del))
+
+
+def find_roles(ck, mod, fn, impl):
+    rule = 'C12.D3.roles'
+    r = Roles()
+    r.mod, r.fn, r.impl, r.fi = mod, fn, impl, finfo(mod, fn)
+    ps = params(fn)
+    if len(ps) < 3:
+        ck.missing(rule, '%s: parameters (C, tol, max_iter)' % impl)
+        return None
+    r.C, r.tol, r.cap = ps[0], ps[1], ps[2]
+    outer = [l for l in walk_local(fn) if isinstance(l, ast.For) and not _loops_between(mod, l, fn)
+             and any(isinstance(x, ast.For) and x is not l for x in ast.walk(l))]
+    if len(outer) != 1:
+        ck.missing(rule, '%s: exactly one outer `for` loop around the update loops (found %d)' % (impl, len(outer)))
+        return None
+    r.loop = loop = outer[0]
+    if not isinstance(loop.target, ast.Name):
+        ck.missing(rule, '%s: iteration counter is not a plain name' % impl)
+        return None
+    r.n_iter = loop.target.id
+    st2, st1, ld2, ld1 = set(), set(), set(), set()
+    for sub, is_store in _subscripts(loop):
+        two = isinstance(sub.slice, ast.Tuple) and len(sub.slice.elts) == 2
+        one = not isinstance(sub.slice, (ast.Tuple, ast.Slice))
+        nm = sub.value.id
+        if two:
+            (st2 if is_store else ld2).add(nm)
+        elif one:
+            (st1 if is_store else ld1).add(nm)
+    ro2, ro1 = ld2 - st2, ld1 - st1
+
+    def pick(cands, pinned, what):
+        if len(cands) == 1:
+            return next(iter(cands))
+        if pinned in cands:
+            return pinned
+        ck.missing(rule, '%s: %s not identified (candidates: %s)' % (impl, what, ', '.join(sorted(cands)) or 'none'))
+        return None
+    r.X = pick(st2, 'X', 'the symmetric work matrix (array stored with a 2-D index in the iteration)')
+    r.Xrs = pick(st1, 'X_rs', 'the running row sums (array stored with a 1-D index in the iteration)')
+    r.Crs = pick(ro1, 'C_rs', 'the row sums of the counts (1-D array only read in the iteration)')
+    if None in (r.X, r.Xrs, r.Crs):
+        return None
+    if r.C not in ro2:
+        ck.missing(rule, '%s: the count matrix `%s` is not read with a 2-D index in the iteration' % (impl, r.C))
+        return None
+    r.states = (r.C, r.X, r.Xrs, r.Crs)
+    # update loops, through the stores into X
+    diag, pair = [], []
+    for sub, is_store in _subscripts(loop):
+        if not is_store or sub.value.id != r.X:
+            continue
+        if not (isinstance(sub.slice, ast.Tuple) and len(sub.slice.elts) == 2 and all(isinstance(e, ast.Name) for e in sub.slice.elts)):
+            ck.missing(rule, '%s: store `%s` is not indexed by two loop variables' % (impl, u(sub)))
+            return None
+        p, q = (e.id for e in sub.slice.elts)
+        ls = _loops_between(mod, sub, loop)
+        if ls is None or not all(isinstance(l, ast.For) and isinstance(l.target, ast.Name) for l in ls):
+            ck.missing(rule, '%s: loops around `%s` not recognised' % (impl, u(sub)))
+            return None
+        tg = [l.target.id for l in ls]
+        if p == q and tg == [p]:
+            diag.append(ls[0])
+        elif p != q and len(tg) == 2 and set(tg) == {p, q}:
+            pair.append((ls[1], ls[0]))
+        else:
+            ck.missing(rule, '%s: store `%s` is not inside `for %s` / `for %s, %s` loops (found loops over %s)' % (impl, u(sub), p, p, q, ', '.join(tg)))
+            return None
+    if not diag or not pair or any(d is not diag[0] for d in diag) or any(p[0] is not pair[0][0] or p[1] is not pair[0][1] for p in pair):
+        ck.missing(rule, '%s: one diagonal update loop and one pair update loop nest (found %d / %d stores)' % (impl, len(diag), len(pair)))
+        return None
+    r.diag = diag[0]
+    r.pair_i, r.pair_j = pair[0]
+    r.di = r.diag.target.id
+    r.pi, r.pj = r.pair_i.target.id, r.pair_j.target.id
+    # every in-place change of X / X_rs happens in one of the two bodies; C / C_rs are never changed
+    for nm in (r.X, r.Xrs):
+        for s in _inplace_sites(r.fi, nm):
+            if not (_inside(mod, s, r.diag) or _inside(mod, s, r.pair_j)):
+                ck.missing(rule, '%s: `%s` changes %s outside the recognised update loops' % (impl, u(s)[:80], nm))
+                return None
+    for nm in (r.C, r.Crs):
+        for s in _inplace_sites(r.fi, nm):
+            ck.missing(rule, '%s: `%s` changes %s in place' % (impl, u(s)[:80], nm))
+            return None
+    # the accumulator of the pseudo log-likelihood: reset at the top of a sweep, augmented in both update loops
+    accs = []
+    for s in loop.body:
+        if isinstance(s, ast.Assign) and len(s.targets) == 1 and isinstance(s.targets[0], ast.Name) and const_value(s.value) == 0:
+            nm = s.targets[0].id
+            w1 = any(isinstance(x, (ast.Assign, ast.AugAssign)) and nm in [t.id for t in (x.targets if isinstance(x, ast.Assign) else [x.target]) if isinstance(t, ast.Name)]
+                     for x in ast.walk(r.diag))
+            w2 = any(isinstance(x, (ast.Assign, ast.AugAssign)) and nm in [t.id for t in (x.targets if isinstance(x, ast.Assign) else [x.target]) if isinstance(t, ast.Name)]
+                     for x in ast.walk(r.pair_j))
+            if w1 and w2:
+                accs.append((nm, s))
+    if len(accs) != 1:
+        ck.missing(rule, '%s: pseudo log-likelihood accumulator (`<acc> = 0` at the top of a sweep, updated in both loops): found %d' % (impl, len(accs)))
+        return None
+    r.logl, r.reset = accs[0]
+    if not (r.fi.cfg.dominates(r.reset, r.diag) and r.fi.cfg.dominates(r.reset, r.pair_i)):
+        ck.missing(rule, '%s: `%s` does not precede both update loops' % (impl, u(r.reset)))
+        return None
+    ck.ok(rule, mod, loop, '%s: C=%s X=%s X_rs=%s C_rs=%s acc=%s' % (impl, r.C, r.X, r.Xrs, r.Crs, r.logl),
+          'roles located through parameters, stores and loops')
+    return r
+
+
+def _sizes(r):
+    out = []
+    for a in (r.C, r.X):
+        out += ['len(%s)' % a, '%s.shape[0]' % a, '%s.shape[1]' % a]
+    for a in (r.Crs, r.Xrs):
+        out += ['len(%s)' % a, '%s.shape[0]' % a, '%s.size' % a]
+    return out
+
+
+def _esc_guard(mod, node, loop):
+    """Conjunction of the conditions under which `node` (inside loop) runs."""
+    conds = []
+    n, child = mod.parent.get(node), node
+    while n is not None and n is not loop:
+        if isinstance(n, ast.If):
+            conds.append((n, any(child is x for x in n.body)))
+        elif not isinstance(n, ast.stmt):
+            pass
+        else:
+            return None
+        child, n = n, mod.parent.get(n)
+    return conds
+
+
+# ---------------------------------------------------------------------------
+# D3: the sweep
+
+def sweep_model(ck, r):
+    """Obligations on one implementation against the reference; returns the
+    model (role -> comparable value) used for the sibling comparison."""
+    rule = 'C12.D3.reference'
+    mod, fn, fi, impl = r.mod, r.fn, r.fi, r.impl
+    F = fn.name
+    model = {}
+    scope = set(r.states)
+    sizes = _sizes(r)
+
+    def rng(loopnode, forms, what, extra=()):
+        e = fi.expand(loopnode.iter, stop=r.states)
+        pats = [f % {'N': n} for n in sizes for f in forms]
+        v = classify(e, pats, scope=scope | set(extra))
+        ck.decide(v, rule + '.range', mod, loopnode, F, '%s: for %s in %s' % (impl, u(loopnode.target), u(loopnode.iter)),
+                  '%s ranges over %s' % (what, forms[0] % {'N': 'n'}),
+                  '%s: %s must range over %s (n = number of states); `%s` visits other cells' % (impl, what, forms[0] % {'N': 'n'}, fi.xu(loopnode.iter, stop=r.states)))
+        return forms[0] % {'N': 'n'} if v[0] == 'match' else fi.xu(loopnode.iter, stop=r.states)
+    model['range.diag'] = rng(r.diag, ['range(%(N)s)', 'range(0, %(N)s)'], 'the diagonal update')
+    model['range.pair.i'] = rng(r.pair_i, ['range(%(N)s - 1)', 'range(0, %(N)s - 1)', 'range(%(N)s)', 'range(0, %(N)s)'], 'the first index of the pair update')
+    i = r.pi
+    model['range.pair.j'] = rng(r.pair_j, ['range(%s + 1, %%(N)s)' % i, 'range(1 + %s, %%(N)s)' % i], 'the second index of the pair update (j > i)', extra=(i,))
+    order = fi.cfg.dominates(r.diag, r.pair_i)
+    model['order'] = 'diag<pair' if order else 'pair<diag'
+    ck.check(order, rule + '.sweep-order', mod, r.pair_i, F, '%s: diagonal loop, then pair loop' % impl,
+             'a sweep updates the diagonal first, then the pairs i<j', '%s: the reference sweep updates the diagonal before the pairs' % impl)
+
+    # no iteration of an update loop may be skipped or cut short
+    skipped = {}
+    for tag, top, idx in (('diag', r.diag, (r.di,)), ('pair', r.pair_i, (r.pi, r.pj))):
+        for x in ast.walk(top):
+            if not isinstance(x, (ast.Continue, ast.Break, ast.Return, ast.Raise)):
+                continue
+            skipped[tag] = True
+            own = (_loops_between(mod, x, top) or [top])[0]
+            g = _esc_guard(mod, x, own)
+            kind = type(x).__name__.lower()
+            if g and own in (r.diag, r.pair_i, r.pair_j) and isinstance(x, (ast.Continue, ast.Break)) and all(
+                    _closed_over(fi.expand(n.test, stop=r.states), scope | set(idx)) for n, _ in g):
+                n0 = g[-1][0]
+                txt = ' and '.join(('%s' if pol else 'not (%s)') % u(n.test) for n, pol in g)
+                model['%s.every' % tag] = 'not when %s' % txt
+                ck.bad('C12.D3.every-pair', mod, n0, F, '%s: if %s: %s' % (impl, txt, kind),
+                       '%s: the %s update is skipped whenever `%s`: the reference sweep updates EVERY %s in every sweep; a cell '
+                       'that is never updated stays frozen at its start value C[i,j] + C[j,i], and the iteration converges to a '
+                       'constrained optimum instead of the reversible MLE' % (impl, tag, txt, 'pair i<j' if tag == 'pair' else 'diagonal cell'))
+            else:
+                ck.missing('C12.D3.every-pair', '%s: `%s` inside the %s update loop (%s): control flow not modelled' % (impl, kind, tag, mod.loc(x)))
+        if tag not in skipped:
+            model['%s.every' % tag] = 'always'
+            ck.ok('C12.D3.every-pair', mod, top, '%s: %s loop body has no continue/break/return' % (impl, tag), 'every cell is updated in every sweep')
+
+    # statements of the outer pair loop around the inner one: only scalars of the immutable state may be hoisted there
+    prelude = []
+    if 'pair' not in skipped:
+        k = [n for n, s in enumerate(r.pair_i.body) if s is r.pair_j]
+        before, after = (r.pair_i.body[:k[0]], r.pair_i.body[k[0] + 1:]) if k else (None, None)
+        live = lambda ss: [s for s in ss if not isinstance(s, ast.Pass) and not (isinstance(s, ast.Expr) and isinstance(s.value, ast.Constant))]
+        if before is None or live(after) or any(
+                not (isinstance(s, ast.Assign) and all(isinstance(t, ast.Name) for t in s.targets)) or
+                {n.id for n in ast.walk(s.value) if isinstance(n, ast.Name)} & {r.X, r.Xrs, r.logl} for s in live(before)):
+            ck.missing(rule, '%s: statements of the outer pair loop besides the inner loop are not modelled' % impl)
+            skipped['pair'] = True
+        else:
+            prelude = live(before)
+
+    model['_skipped'] = sorted(skipped)
+    for tag, L, alias, ref_src, cells in (
+            ('diag', r.diag, {r.di: 'i'}, REF_DIAG, ('X[i,i]', 'X_rs[i]')),
+            ('pair', r.pair_j, {r.pi: 'i', r.pj: 'j'}, REF_PAIR, ('X[i,j]', 'X[j,i]', 'X_rs[i]', 'X_rs[j]'))):
+        if tag in skipped:
+            continue
+        alias = dict(alias)
+        alias.update({r.C: 'C', r.X: 'X', r.Xrs: 'X_rs', r.Crs: 'C_rs', r.logl: 'logl'})
+        if len(set(alias.values())) != len(alias):
+            ck.missing(rule, '%s: roles are not distinct names' % impl)
+            continue
+        ex = _Exec(alias)
+        try:
+            if tag == 'pair':
+                ex.run(prelude)
+            ex.run_body(L.body)
+            ref = _run_reference(ref_src)
+        except (AnalysisIncomplete, _Escape) as e:
+            ck.missing(rule, '%s: body of the %s update loop not executable symbolically: %s' % (impl, tag, e))
+            continue
+        extra = [k for k in ex.phase1 if k not in cells]
+        if extra:
+            ck.missing(rule, '%s: the %s update also stores %s, which the reference update does not' % (impl, tag, ', '.join(extra)))
+            continue
+        all_ok = True
+        blamed = set()
+        for k in cells:
+            if k not in ex.phase1:
+                all_ok = False
+                ck.bad(rule, mod, L, F, '%s: %s' % (impl, k), '%s: the %s update never stores %s (reference: %s = %s)' % (
+                    impl, tag, k, REF_OF[k], REFERENCE[REF_OF[k]]))
+                continue
+            v, why = cmp_tree(ex.phase1[k], ref.phase1[k])
+            model['%s.%s' % (tag, k)] = ex.phase1[k]
+            node = ex.where.get(k) or L
+            construct = '%s: %s' % (impl, u(node)[:150])
+            detail = '%s: the new value of %s differs from the reference Prinz equation %s = %s: %s' % (
+                impl, k, REF_OF[k], REFERENCE[REF_OF[k]], why)
+            if v != 'match':
+                all_ok = False
+                # name the first intermediate that already differs from its reference counterpart
+                for nm in ('a', 'b', 'c', 'v'):
+                    if nm in ex.scalars1 and nm in ref.scalars1 and nm in ex.where:
+                        v2, why2 = cmp_tree(ex.scalars1[nm], ref.scalars1[nm])
+                        if v2 != 'match':
+                            node = ex.where[nm]
+                            construct = '%s: %s' % (impl, u(node)[:150])
+                            detail = '%s: `%s` differs from the reference Prinz equation %s = %s (it determines %s): %s' % (
+                                impl, u(node)[:150], nm, REFERENCE[nm], k, why2)
+                            break
+            if v != 'match' and (id(node), v) in blamed:
+                continue        # consequence of a construct that has been reported already
+            blamed.add((id(node), v))
+            ck.decide(v, rule, mod, node, F, construct, '%s equals the reference Prinz update (%s) after symbolic execution' % (k, REF_OF[k]), detail)
+        if tag == 'pair' and 'X[i,j]' in ex.phase1 and 'X[j,i]' in ex.phase1:
+            sym = _teq(ex.phase1['X[i,j]'], ex.phase1['X[j,i]'])
+            ck.check(sym, rule + '.symmetric', mod, ex.where.get('X[j,i]') or L, F,
+                     '; '.join(sorted({u(ex.where[k])[:60] for k in ('X[i,j]', 'X[j,i]') if k in ex.where})),
+                     'X[i,j] and X[j,i] both take the new value (X stays symmetric)',
+                     '%s: both X[i, j] and X[j, i] must be set to the same new value v' % impl)
+            if all_ok:
+                ck.ok(rule + '.order', mod, ex.where.get('X_rs[i]') or L, 'row-sum updates use the value X[i,j] had before the store',
+                      'row sums are updated with the OLD X[i,j] (the final row sums equal X_rs + (v - X_old))')
+        # assertions inside the update (informational: `assert c <= 0` is not decided)
+        model['_asserts.%s' % tag] = sorted(_show(a, 400) for a in ex.asserts)
+        # the likelihood term and its guard
+        acc = ex.env.get('logl')
+        model['%s.logl' % tag] = acc
+        _log_guard(ck, r, tag, L, ex, acc)
+    return model
+
+
+def _log_guard(ck, r, tag, L, ex, acc):
+    rule = 'C12.D3.log-guard'
+    sp = _sp()
+    mod, F, impl = r.mod, r.fn.name, r.impl
+    LOGf = sp.Function('LOG')
+    node = ex.where.get('logl') or L
+    g = r.mod.parent.get(node)
+    node = g if isinstance(g, ast.If) else node
+    if acc is None:
+        ck.missing(rule, '%s: no likelihood term in the %s loop' % (impl, tag))
+        return
+    cs = sorted(_conds(acc))
+    n = 0
+    if len(cs) > 6:
+        ck.missing(rule, '%s: too many case distinctions around the likelihood term' % impl)
+        return
+    verdict, why = 'match', ''
+    for bits in itertools.product((True, False), repeat=len(cs)):
+        leaf = acc
+        for c, pol in zip(cs, bits):
+            leaf = _restrict(leaf, c, pol)
+        if isinstance(leaf, bool):
+            continue
+        logs = leaf.atoms(LOGf)
+        on = {c for c, pol in zip(cs, bits) if pol}
+        for lg in logs:
+            n += 1
+            num = sp.fraction(sp.together(lg.args[0]))[0]
+            if ('P', str(sp.expand(num))) not in on:
+                verdict = 'near' if _closed(acc) else 'far'
+                why = 'log(%s) is evaluated when %s' % (lg.args[0], ' and '.join('%s%s(%s)' % ('' if pol else 'not ', c[0], c[1]) for c, pol in zip(cs, bits)) or 'always')
+    if n == 0:
+        ck.missing(rule, '%s: the %s loop adds no log term to the accumulator' % (impl, tag))
+        return
+    ck.decide(verdict, rule, mod, node, F, '%s: %s' % (impl, (u(node.test) if isinstance(node, ast.If) else u(node))[:100]),
+              'the log term is added only when its argument is positive',
+              '%s: %s; the guard must test the very quantity whose logarithm is taken (> 0); otherwise '
+              '0 * log(0) = NaN enters the log-likelihood and the convergence test stops the iteration '
+              'after one sweep' % (impl, why))
+
+
+def d3_siblings(ck, rp, mp_model, rx, mx_model):
+    rule = 'C12.D3.siblings'
+    agree = 0
+    unmodelled = set(mp_model.pop('_skipped', [])) | set(mx_model.pop('_skipped', []))
+    for k in sorted(k for k in set(mp_model) | set(mx_model) if k.startswith('_asserts.')):
+        a, b = mp_model.pop(k, None), mx_model.pop(k, None)
+        if a != b:
+            ck.observe(rule, rp.mod, rp.loop, 'assertions inside the %s update differ: py %s | pyx %s' % (k.split('.')[1], a, b))
+    keys = sorted(k for k in set(mp_model) | set(mx_model) if k.endswith('.every') or k.split('.')[0] not in unmodelled)
+    for k in keys:
+        a, b = mp_model.get(k), mx_model.get(k)
+        if a is None or b is None:
+            ck.missing(rule, 'role `%s` extracted from only one implementation' % k)
+            continue
+        if isinstance(a, (str, list, tuple)) or isinstance(b, (str, list, tuple)):
+            v, why = ('match', '') if a == b else ('near', '%s | %s' % (a, b))
+        else:
+            v, why = cmp_tree(a, b)
+            if v == 'near' and not _closed(b):
+                v = 'far'
+        sa_, sb_ = (a if isinstance(a, str) else _show(a) if not isinstance(a, (list, tuple)) else '; '.join(a)), \
+                   (b if isinstance(b, str) else _show(b) if not isinstance(b, (list, tuple)) else '; '.join(b))
+        if v == 'match':
+            agree += 1
+            ck.ok(rule, rp.mod, rp.loop, '%s: %s' % (k, sa_[:110]), 'same value in builders.py and libmsm.pyx')
+        elif v == 'near':
+            ck.bad(rule, rp.mod, rp.loop, '_prinz_mle_py <-> _mle_prinz_dense', '%s' % k,
+                   'the pure-Python and the compiled estimator differ in `%s` (after symbolic execution; sqrt/log/len spellings '
+                   'canonicalised): py: %s  |  pyx: %s  (%s): the two implementations no longer compute the same update / take '
+                   'the same branch' % (k, sa_[:140], sb_[:140], why[:200]))
+        else:
+            ck.missing(rule, 'role `%s` could not be compared: %s' % (k, why[:160]))
+    if agree == len(keys) and not unmodelled:
+        ck.floor(rule, agree, 15, 'agreeing roles')
+
+
+# ---------------------------------------------------------------------------
+# D1
 
 def d1_no_exact_float_asserts(ck, mod, fn):
     rule = 'C12.D1.no-exact-float-assert'
+    fi = finfo(mod, fn)
     n = 0
     for s in walk_local(fn):
         if not isinstance(s, ast.Assert):
             continue
         n += 1
         bad = None
-        for c in ast.walk(s.test):
+        test = fi.expand(s.test, strict=False)
+        for c in ast.walk(test):
             if isinstance(c, ast.Compare) and any(isinstance(op, (ast.Eq, ast.NotEq)) for op in c.ops):
                 sides = [c.left] + list(c.comparators)
                 has_red = any(any(isinstance(x, ast.Call) and ((isinstance(x.func, ast.Attribute) and x.func.attr in ('sum', 'mean', 'prod'))
@@ -257,107 +976,303 @@ def d1_no_exact_float_asserts(ck, mod, fn):
     return n
 
 
-def d2_warning(ck, mod, fn, loop):
+# ---------------------------------------------------------------------------
+# D2
+
+def _cap_verdict(cmpn, lv, cap):
+    """Does `lhs REL rhs` hold exactly when lv == cap - 1 (and not one step earlier)?"""
+    sp = _sp()
+    try:
+        d = symx.lift(cmpn.lhs) - symx.lift(cmpn.rhs)
+    except AnalysisIncomplete:
+        return 'far'
+    n, m = sp.Symbol(lv, real=True), sp.Symbol(cap, real=True)
+    if d.free_symbols - {n, m} or n not in d.free_symbols:
+        return 'far'
+    at_end, before = sp.expand(d.subs(n, m - 1)), sp.expand(d.subs(n, m - 2))
+    if at_end.free_symbols or before.free_symbols:
+        return 'near' if cmpn.rel in ('==', '<', '<=', '>', '>=') and at_end.free_symbols <= {m} else 'far'
+    holds = {'==': lambda x: x == 0, '<': lambda x: x < 0, '<=': lambda x: x <= 0, '>': lambda x: x > 0,
+             '>=': lambda x: x >= 0}.get(cmpn.rel)
+    if holds is None:
+        return 'far'
+    return 'match' if bool(holds(at_end)) and not bool(holds(before)) else 'near'
+
+
+def d2_warning(ck, r):
     rule = 'C12.D2.warning'
-    n = check_warn_calls(ck, rule + '.wellformed', mod, [(fn.name, fn)])
-    ws = [c for c in calls_in(fn, 'warnings.warn')]
+    mod, fn, fi, loop = r.mod, r.fn, r.fi, r.loop
+    check_warn_calls(ck, rule + '.wellformed', mod, [(fn.name, fn)])
+    ws = [c for c in calls_in(fn, 'warnings.warn', 'warn')]
+    lv, cap = r.n_iter, r.cap
     for c in ws:
         cat = c.args[1] if len(c.args) > 1 else kwarg(c, 'category')
-        ck.check(cat is not None and u(cat).endswith('ConvergenceWarning'), rule + '.category', mod, c, fn.name, u(c)[:120],
+        ck.check(cat is not None and u(fi.expand(cat)).endswith('ConvergenceWarning'), rule + '.category', mod, c, fn.name, u(c)[:120],
                  'category is ConvergenceWarning', 'the non-convergence warning must carry category ConvergenceWarning')
-        g = mod.parent.get(mod.enclosing_stmt(c))
-        ok = isinstance(g, ast.If)
-        why = 'warning is not guarded by an iteration-cap test'
-        if ok:
-            cs = conjuncts(g.test, True)
-            ok = cs is not None and len(cs) == 1 and isinstance(cs[0], Cmp)
-            if ok:
-                cmpn = cs[0]
-                lv = u(loop.target)
-                cap = u(loop.iter.args[0])
-                txt = (u(cmpn.lhs), cmpn.rel, u(cmpn.rhs))
-                sat = txt in ((lv, '==', '%s - 1' % cap), (lv, '>=', '%s - 1' % cap), ('%s - 1' % cap, '==', lv),
-                              ('%s - 1' % cap, '<=', lv), (lv, '>', '%s - 2' % cap), ('%s + 1' % lv, '==', cap),
-                              ('%s + 1' % lv, '>=', cap))
-                ok = sat
-                why = ('after `for %s in range(%s)` is exhausted %s equals %s - 1 (Python range semantics, also in '
-                       'Cython); the condition `%s` can never hold then, so a non-converged model is returned silently'
-                       % (lv, cap, lv, cap, u(g.test)))
-        ck.check(ok, rule + '.reachable', mod, g if isinstance(g, ast.If) else c, fn.name,
-                 u(g.test) if isinstance(g, ast.If) else u(c)[:80],
-                 'the warning fires exactly when the iteration cap was exhausted', why)
+        ws_stmt = mod.enclosing_stmt(c)
+        g = mod.parent.get(ws_stmt)
+        if not isinstance(g, ast.If):
+            ck.bad(rule + '.reachable', mod, c, fn.name, u(c)[:80], 'warning is not guarded by an iteration-cap test')
+        else:
+            pol = any(ws_stmt is x for x in g.body)
+            cs = conjuncts(fi.expand(g.test), pol)
+            if cs is None or len(cs) != 1 or not isinstance(cs[0], Cmp):
+                ck.missing(rule + '.reachable', 'guard of the convergence warning is not a single comparison: %s' % u(g.test)[:100])
+            else:
+                v = _cap_verdict(cs[0], lv, cap)
+                ck.decide(v, rule + '.reachable', mod, g, fn.name, u(g.test),
+                          'the warning fires exactly when the iteration cap was exhausted',
+                          'after `for %s in range(%s)` is exhausted %s equals %s - 1 (Python range semantics, also in '
+                          'Cython); the condition `%s` does not hold exactly then, so a non-converged model is returned silently '
+                          '(or a converged one is reported as failed)' % (lv, cap, lv, cap, u(g.test)))
         # must come after the loop
-        fi = finfo(mod, fn)
-        ck.check(fi.cfg.reachable(loop, mod.enclosing_stmt(c)) and not any(x is c for x in ast.walk(loop)), rule + '.reachable', mod, c, fn.name,
+        ck.check(fi.cfg.reachable(loop, ws_stmt) and not _inside(mod, c, loop), rule + '.reachable', mod, c, fn.name,
                  'position of the warning', 'warning is evaluated after the iteration loop', 'the cap test must follow the loop')
     ck.floor(rule + '.wellformed', len(ws), 1, 'convergence warning in %s' % fn.name)
-    # convergence test inside the loop: break when |logl - oldlogl| <= tol
-    conv = [s for s in loop.body if isinstance(s, ast.If) and 'tol' in names_loaded(s.test)]
-    ok = len(conv) == 1
-    if ok:
-        cs = conjuncts(conv[0].test, True)
-        less = cs[0].as_less() if cs and isinstance(cs[0], Cmp) else None
-        ok = less is not None and u(less[0]) == 'tol' and u(less[2]) in ('abs(logl - oldlogl)', 'np.abs(logl - oldlogl)', 'fabs(logl - oldlogl)') \
-            and any(u(x) == 'oldlogl = logl' for x in conv[0].body) and any(isinstance(x, ast.Break) for x in conv[0].orelse)
-    ck.check(ok, 'C12.D2.convergence', mod, conv[0] if conv else loop, fn.name, u(conv[0].test) if conv else 'convergence test',
-             'continue while the change of the pseudo log-likelihood exceeds tol, else break',
-             'the loop must continue (oldlogl = logl) while abs(logl - oldlogl) > tol and break otherwise')
+    return d2_convergence(ck, r)
 
 
-def d5_result(ck, mod, fn, impl):
+def d2_convergence(ck, r):
+    """`break` of the iteration loop: the loop continues (and remembers the
+    likelihood) exactly while |logl - old| > tol."""
+    rule = 'C12.D2.convergence'
+    mod, fn, fi, loop = r.mod, r.fn, r.fi, r.loop
+    F = fn.name
+    bad_msg = 'the loop must continue (oldlogl = logl) while abs(logl - oldlogl) > tol and break otherwise'
+    brs = [x for x in ast.walk(loop) if isinstance(x, ast.Break) and _loops_between(mod, x, loop) == []]
+    if len(brs) != 1:
+        ck.missing(rule, '%s: exactly one `break` of the iteration loop (found %d)' % (r.impl, len(brs)))
+        return None
+    g = _esc_guard(mod, brs[0], loop)
+    if not g or len(g) != 1:
+        ck.missing(rule, '%s: the `break` is not under exactly one `if`' % r.impl)
+        return None
+    ifn, pb = g[0]
+    # the remembered likelihood: the name that is assigned the accumulator at the level of the iteration loop
+    upd = [s for s in ast.walk(loop) if isinstance(s, ast.Assign) and len(s.targets) == 1 and isinstance(s.targets[0], ast.Name)
+           and s.targets[0].id != r.logl and _loops_between(mod, s, loop) == [] and fi.xu(s.value, stop=(r.logl,)) == r.logl]
+    olds = sorted({s.targets[0].id for s in upd})
+    if not olds:
+        # nothing is assigned the accumulator: is there a remembered value in the test that is never refreshed?
+        seen = {n.id for n in ast.walk(ifn.test) if isinstance(n, ast.Name)}
+        others = sorted(seen - {r.tol, r.logl, 'abs', 'np', 'fabs', 'math'})
+        if len(others) == 1 and r.logl in seen:
+            ck.bad(rule, mod, ifn, F, u(ifn.test), bad_msg + ': `%s` is compared with `%s` but never set to it in the loop' % (others[0], r.logl))
+            return None
+    if len(olds) != 1:
+        ck.missing(rule, '%s: `<old> = %s` in the iteration loop (found %d candidates)' % (r.impl, r.logl, len(olds)))
+        return None
+    r.old = olds[0]
+    sc = {r.tol, r.logl, r.old}
+    # strip `not`s; the loop continues when `test` has polarity `cont`
+    test, cont = fi.expand(ifn.test, stop=(r.logl, r.old)), not pb
+    while isinstance(test, ast.UnaryOp) and isinstance(test.op, ast.Not):
+        test, cont = test.operand, not cont
+    less = None
+    if isinstance(test, ast.Compare) and len(test.ops) == 1:
+        less = Cmp(test.left, type(test.ops[0]), test.comparators[0]).as_less()
+    if less is None:
+        ck.decide('near' if _closed_over(test, sc) else 'far', rule, mod, ifn, F, u(ifn.test), '', bad_msg)
+        return None
+    small, strict, big = less
+    forms = []
+    for f in ('abs', 'np.abs', 'fabs', 'math.fabs', 'np.fabs'):
+        forms += ['%s(%s - %s)' % (f, r.logl, r.old), '%s(%s - %s)' % (f, r.old, r.logl)]
+    closed = _closed_over(test, sc)
+    if u(small) == r.tol:
+        change, tol_small = big, True
+    elif u(big) == r.tol:
+        change, tol_small = small, False
+    else:
+        ck.decide('near' if closed else 'far', rule, mod, ifn, F, u(ifn.test), '', bad_msg + ' (the change must be compared with the tolerance)')
+        return None
+    vb = classify(change, forms, scope=sc)
+    if vb[0] != 'match':
+        ck.decide(vb if closed else 'far', rule, mod, ifn, F, u(ifn.test), '', bad_msg)
+        return None
+    if not cont and not tol_small and not strict:
+        # `break if change <= tol`: the complementary comparison in the other branch: equal except for NaN likelihoods
+        ck.missing(rule, '%s: the loop is left when `%s` holds (complement of the reference test): equivalence for NaN '
+                   'likelihoods not decided' % (r.impl, u(test)))
+        return None
+    if not (cont and tol_small and strict):
+        ck.bad(rule, mod, ifn, F, u(ifn.test), bad_msg + ' (the loop continues %s `%s`)' % ('while' if cont else 'unless', u(test)))
+        return None
+    good = upd
+    other = [s for s in ast.walk(loop) if isinstance(s, (ast.Assign, ast.AugAssign)) and s not in upd and
+             r.old in [t.id for t in (s.targets if isinstance(s, ast.Assign) else [s.target]) if isinstance(t, ast.Name)]]
+    if other:
+        ck.decide('near' if _closed_over(other[0].value, sc) else 'far', rule, mod, other[0], F, u(other[0]), '',
+                  bad_msg + ': `%s` is also changed by `%s`' % (r.old, u(other[0])[:80]))
+        return None
+    # on every path back to the loop head the old likelihood is replaced by the new one
+    covered = any(not fi.cfg.reachable(ifn, loop, avoiding=[s]) for s in good)
+    ck.check(covered, rule, mod, ifn, F, u(ifn.test),
+             'continue while the change of the pseudo log-likelihood exceeds tol, else break', bad_msg +
+             ': a continuing sweep can reach the next one without `%s = %s`' % (r.old, r.logl))
+    # start value of the remembered likelihood
+    outside = [s for s in fi.rd.defs_at(loop, r.old) if s not in ('PARAM', 'UNBOUND') and not _inside(mod, s, loop)]
+    init = None
+    if len(outside) == 1 and isinstance(outside[0], ast.Assign):
+        init = const_value(fi.expand(outside[0].value))
+    if init is None:
+        ck.missing(rule, '%s: constant start value of `%s` before the loop' % (r.impl, r.old))
+    else:
+        ck.check(init == 0, rule + '.init', mod, outside[0], F, u(outside[0]), 'remembered likelihood starts at 0',
+                 'the remembered likelihood must start at 0 (both implementations)')
+    return ('tol < |logl - old|', init)
+
+
+# ---------------------------------------------------------------------------
+# D5
+
+def d5_result(ck, r):
     rule = 'C12.D5.result'
-    T = [s for s in assigns_to(fn, 'T') if isinstance(s, ast.Assign)]
-    ok = len(T) == 1 and u(T[0].value) in ('X / X.sum(axis=-1).reshape(len(X), 1)', 'X / X.sum(axis=1).reshape(len(X), 1)',
-                                            'X / X.sum(axis=1)[:, None]', 'X / X.sum(axis=-1)[:, None]',
-                                            'X / X.sum(axis=1).reshape((-1, 1))', 'X / X.sum(axis=1).reshape(-1, 1)')
-    ck.check(ok, rule, mod, T[0] if T else fn, fn.name, u(T[0]) if T else 'T', 'T = X / rowsum(X) (column-vector broadcast)',
-             '%s: T must be X divided by its row sums shaped (n, 1)' % impl)
-    pi = [s for s in assigns_to(fn, 'pi') if isinstance(s, ast.Assign)]
-    ok = len(pi) == 1 and u(pi[0].value) in ('X_rs / X_rs.sum()', 'X_rs / X_rs.sum()[..., None]', 'X_rs / np.sum(X_rs)')
-    ck.check(ok, rule, mod, pi[0] if pi else fn, fn.name, u(pi[0]) if pi else 'pi', 'pi = rowsum(X) / sum(X)',
-             '%s: pi must be X_rs / X_rs.sum()' % impl)
-    r = returns_of(fn)
-    ck.check(len(r) == 1 and u(r[0].value) == '(T, pi)', rule, mod, r[0] if r else fn, fn.name, u(r[0]) if r else 'return',
-             'returns (T, pi)', '%s must return (T, pi)' % impl)
-    # initialisation
-    X = [s for s in walk_local(fn) if isinstance(s, ast.Assign) and u(s.targets[0]) == 'X']
-    ok = len(X) == 1 and u(X[0].value) in ('C + C.T', 'C.T + C')
-    ck.check(ok, rule + '.init', mod, X[0] if X else fn, fn.name, u(X[0]) if X else 'X', 'X starts as C + C^T', 'X must be initialised to C + C.T')
-    for nm, src in (('X_rs', 'X'), ('C_rs', 'C')):
-        ss = [s for s in walk_local(fn) if isinstance(s, ast.Assign) and u(s.targets[0]) == nm and 'sum' in u(s.value)]
-        ok = len(ss) == 1 and u(ss[0].value) == '%s.sum(axis=1)' % src
-        ck.check(ok, rule + '.init', mod, ss[0] if ss else fn, fn.name, u(ss[0]) if ss else nm, '%s = row sums of %s' % (nm, src),
-                 '%s must be %s.sum(axis=1)' % (nm, src))
-        pos = [s for s in walk_local(fn) if isinstance(s, ast.Assert) and u(s.test) in CS('np.all(%s > 0)' % nm, '(%s > 0).all()' % nm)]
-        ck.check(len(pos) == 1, rule + '.precondition', mod, pos[0] if pos else fn, fn.name, 'assert np.all(%s > 0)' % nm,
+    mod, fn, fi, impl = r.mod, r.fn, r.fi, r.impl
+    F = fn.name
+    X, R, Cn, S = r.X, r.Xrs, r.C, r.Crs
+    rets = returns_of(fn)
+    if len(rets) != 1 or not isinstance(rets[0].value, ast.Tuple) or len(rets[0].value.elts) != 2:
+        ck.missing(rule, '%s: single `return T, pi`' % impl)
+    else:
+        ret = rets[0]
+        ck.check(fi.cfg.reachable(r.loop, ret) and not _inside(mod, ret, r.loop), rule, mod, ret, F, u(ret), 'returns (T, pi) after the iteration',
+                 '%s must return (T, pi) after the iteration' % impl)
+        te, pe = (fi.expand(e, stop=r.states) for e in ret.value.elts)
+        ns = ['len(%s)' % X, '%s.shape[0]' % X, 'len(%s)' % Cn, '%s.shape[0]' % Cn, 'len(%s)' % R, '%s.shape[0]' % R]
+        forms = []
+        for ax in ('1', '-1'):
+            rs = '%s.sum(axis=%s)' % (X, ax)
+            forms += ['%s / %s[:, None]' % (X, rs), '%s / %s.sum(axis=%s, keepdims=True)' % (X, X, ax)]
+            for n in ns:
+                forms += ['%s / %s.reshape(%s, 1)' % (X, rs, n), '%s / %s.reshape((%s, 1))' % (X, rs, n)]
+        v = classify(te, forms, scope={X, Cn, R})
+        ck.decide(v, rule, mod, _def_stmt(fi, ret.value.elts[0]) or ret, F, 'T = %s' % fi.xu(ret.value.elts[0], stop=r.states)[:150], 'T = X / rowsum(X) (column-vector broadcast)',
+                  '%s: T must be X divided by its row sums shaped (n, 1)' % impl)
+        forms = ['%s / %s.sum()' % (R, R), '%s / %s.sum()[..., None]' % (R, R), '%s / %s.sum(axis=0)' % (R, R)]
+        v = classify(pe, forms, scope={R})
+        ck.decide(v, rule, mod, _def_stmt(fi, ret.value.elts[1]) or ret, F, 'pi = %s' % fi.xu(ret.value.elts[1], stop=r.states)[:150],
+                  'pi = rowsum(X) / sum(X)', '%s: pi must be X_rs / X_rs.sum()' % impl)
+    # initialisation: the definitions that reach the iteration loop
+    for nm, forms, sc, ok_txt, bad_txt in (
+            (X, ['%s + %s.T' % (Cn, Cn), '%s.T + %s' % (Cn, Cn), '%s + %s.transpose()' % (Cn, Cn), '%s.transpose() + %s' % (Cn, Cn)],
+             {Cn}, 'X starts as C + C^T', 'X must be initialised to C + C.T'),
+            (R, ['%s.sum(axis=1)' % X, '%s.sum(axis=-1)' % X, '%s.sum(1)' % X], {X}, 'X_rs = row sums of X', 'X_rs must be X.sum(axis=1)'),
+            (S, ['%s.sum(axis=1)' % Cn, '%s.sum(axis=-1)' % Cn, '%s.sum(1)' % Cn], {Cn}, 'C_rs = row sums of C', 'C_rs must be C.sum(axis=1)')):
+        sites = [s for s in fi.rd.defs_at(r.loop, nm) if not (s not in ('PARAM', 'UNBOUND') and _inside(mod, s, r.loop))]
+        if len(sites) != 1 or sites[0] in ('PARAM', 'UNBOUND') or fi.def_value(sites[0], nm) is None:
+            ck.missing(rule + '.init', '%s: single initialisation of %s before the iteration' % (impl, nm))
+            continue
+        s0 = sites[0]
+        v = classify(fi.expand(fi.def_value(s0, nm), stop=r.states), forms, scope=sc)
+        ck.decide(v, rule + '.init', mod, s0, F, u(s0), ok_txt, bad_txt)
+        if nm != X:
+            # row sums are taken of the matrix the iteration starts from
+            src = X if nm == R else Cn
+            ck.check(fi.rd.defs_at(s0, src) == fi.rd.defs_at(r.loop, src) and not any(
+                fi.cfg.reachable(s0, m, avoiding=[r.loop]) and fi.cfg.reachable(m, r.loop) and not _inside(mod, m, r.loop)
+                for m in _inplace_sites(fi, src)), rule + '.init', mod, s0, F, '%s is current when the iteration starts' % nm,
+                '%s is not changed between `%s` and the iteration' % (src, u(s0)), '%s is changed after its row sums were taken' % src)
+    # precondition: every state has counts
+    atoms = []
+    for s in walk_local(fn):
+        if isinstance(s, ast.Assert) and fi.cfg.dominates(s, r.loop) and not _inside(mod, s, r.loop):
+            for a in conjuncts(s.test, True) or []:
+                if isinstance(a, tuple) and a[2]:
+                    atoms.append((fi.xu(a[1], stop=r.states), s))
+    for nm in (R, S):
+        want = CS('np.all(%s > 0)' % nm, '(%s > 0).all()' % nm, 'all(%s > 0)' % nm)
+        pos = [s for t, s in atoms if t in want]
+        ck.check(len(pos) >= 1, rule + '.precondition', mod, pos[0] if pos else fn, F, 'assert np.all(%s > 0)' % nm,
                  'every state has counts (precondition after trimming)', 'the estimator must reject states without counts')
+
+
+def _def_stmt(fi, name_node):
+    if not isinstance(name_node, ast.Name):
+        return None
+    try:
+        ds = [d for d in fi.defs_of_use(name_node) if d not in ('PARAM', 'UNBOUND')]
+    except Exception:
+        return None
+    return ds[0] if len(ds) == 1 else None
+
+
+# ---------------------------------------------------------------------------
+
+def _guarded(ck, rule, f, r):
+    """A part of the analysis that breaks down on an unforeseen shape must not
+    hide what the other parts found: it becomes an incomplete obligation."""
+    try:
+        return f(ck, r)
+    except AnalysisIncomplete as e:
+        ck.missing(rule, '%s: %s' % (r.impl, e))
+    except (AttributeError, KeyError, IndexError, TypeError, ValueError, RecursionError) as e:
+        ck.missing(rule, '%s: construct outside the shapes the rule models (%r)' % (r.impl, e))
+    return None
+
+
+def _shared_mle_rule(ck, mp):
+    """C04.D5.container (densify / re-wrap in `mle`) lives in C04.py; its
+    signature is owned by that file."""
+    import inspect
+    from . import C04
+    f = C04.d5_mle
+    if len(inspect.signature(f).parameters) <= 2:
+        f(ck, mp)
+    elif hasattr(C04, '_sigs'):
+        f(ck, mp, C04._sigs(ck))
+    else:
+        ck.missing('C04.D5.container', 'shared rule C04.d5_mle has an unknown signature')
 
 
 def check(ck):
     mp, mx = ck.repo.mod(BU), ck.repo.mod(LM)
     fp, fx = mp.func('_prinz_mle_py'), mx.func('_mle_prinz_dense')
-    lp, lx = d3_siblings(ck)
-    if lp is not None:
-        d3_reference(ck, mp, fp, lp, 'builders._prinz_mle_py', 'len(C)')
-        d3_reference(ck, mx, fx, lx, 'libmsm._mle_prinz_dense', 'n_states')
-        d2_warning(ck, mp, fp, lp)
-        d2_warning(ck, mx, fx, lx)
+    ck.analysed(mp, fp)
+    ck.analysed(mx, fx)
+    rp = find_roles(ck, mp, fp, 'builders._prinz_mle_py')
+    rx = find_roles(ck, mx, fx, 'libmsm._mle_prinz_dense')
+    models = []
+    for r in (rp, rx):
+        if r is None:
+            continue
+        v = classify(r.fi.expand(r.loop.iter), ['range(%s)' % r.cap, 'range(0, %s)' % r.cap], scope={r.cap})
+        ck.decide(v, 'C12.D4.bounded', r.mod, r.loop, r.fn.name, u(r.loop.iter), '%s: loop bounded by range(max_iter)' % r.impl,
+                  '%s: the iteration must be bounded by range(%s)' % (r.impl, r.cap))
+        m = _guarded(ck, 'C12.D3.reference', sweep_model, r)
+        conv = _guarded(ck, 'C12.D2.warning', d2_warning, r)
+        if m is not None:
+            if conv is not None:
+                m['convergence'] = '%s, start %s' % conv
+            models.append(m)
+        _guarded(ck, 'C12.D5.result', d5_result, r)
+    if len(models) == 2:
+        d3_siblings(ck, rp, models[0], rx, models[1])
     n = d1_no_exact_float_asserts(ck, mp, fp) + d1_no_exact_float_asserts(ck, mx, fx)
     ck.floor('C12.D1.no-exact-float-assert', n, 8, 'assertions in the two estimators')
-    d5_result(ck, mp, fp, 'builders._prinz_mle_py')
-    d5_result(ck, mx, fx, 'libmsm._mle_prinz_dense')
-    # work on a float copy (python)
-    cp = [s for s in assigns_to(fp, 'C') if isinstance(s, ast.Assign)]
-    ok = len(cp) == 1 and u(cp[0].value) in ('C.copy().astype(float)', 'C.astype(float)', 'np.array(C, dtype=float)', 'C.astype(float).copy()')
-    ck.check(ok, 'C12.D4.copy', mp, cp[0] if cp else fp, '_prinz_mle_py', u(cp[0]) if cp else 'C', 'the iteration works on a float copy of the counts',
-             '_prinz_mle_py must copy the counts to float before iterating')
+    # work on a float copy (python): the definition of C that reaches the iteration
+    if rp is not None:
+        fi, Cn = rp.fi, rp.C
+        sites = [s for s in fi.rd.defs_at(rp.loop, Cn)]
+        if sites == ['PARAM']:
+            ck.bad('C12.D4.copy', mp, fp, '_prinz_mle_py', Cn, '_prinz_mle_py must copy the counts to float before iterating '
+                   '(integer counts would make X an integer array and every update would be truncated)')
+        elif len(sites) != 1 or sites[0] in ('PARAM', 'UNBOUND') or fi.def_value(sites[0], Cn) is None:
+            ck.missing('C12.D4.copy', 'single conversion of %s before the iteration' % Cn)
+        else:
+            forms = []
+            for ft in ('float', 'np.float64', 'np.double', "'float64'"):
+                forms += ['%s.copy().astype(%s)' % (Cn, ft), '%s.astype(%s)' % (Cn, ft), 'np.array(%s, dtype=%s)' % (Cn, ft),
+                          '%s.astype(%s).copy()' % (Cn, ft), 'np.array(%s, dtype=%s, copy=True)' % (Cn, ft)]
+            v = classify(fi.def_value(sites[0], Cn), forms, scope={Cn})
+            ck.decide(v, 'C12.D4.copy', mp, sites[0], '_prinz_mle_py', u(sites[0]), 'the iteration works on a float copy of the counts',
+                      '_prinz_mle_py must copy the counts to float before iterating')
     # mle: densify + rewrap (shared with C04)
-    from .C04 import d5_mle
-    d5_mle(ck, mp)
+    _shared_mle_rule(ck, mp)
     check_no_arg_mutation(ck, 'C12.D6.inputs-unmodified', [(BU, 'mle'), (BU, '_prinz_mle_py'), (LM, '_mle_prinz_dense'), (BU, '_prinz_mle')])
     # _prinz_mle dispatch
     fd = mp.func('_prinz_mle')
     cs = [c for c in calls_in(fd) if call_name(c) == '_mle_prinz_dense']
-    ck.check(len(cs) == 1 and u(cs[0].args[0]) == 'C', 'C12.D4.dispatch', mp, cs[0] if cs else fd, '_prinz_mle', u(cs[0]) if cs else '?',
+    ck.check(len(cs) == 1 and len(cs[0].args) >= 1 and u(cs[0].args[0]) == params(fd)[0], 'C12.D4.dispatch', mp, cs[0] if cs else fd, '_prinz_mle', u(cs[0]) if cs else '?',
              'dense input goes to the compiled estimator', '_prinz_mle must call _mle_prinz_dense(C, ...)')
     return EXPLANATION
